@@ -115,6 +115,7 @@ impl Prop for C06 {
                         align_stream(&mut ops, 128 * 1024, *rng.pick(&[0usize, 0, 1, 16, 128 * 1024 - 1]));
                     }
                 }
+                maybe_many_recipients(&mut rng, &mut cfg, 15);
                 Case::new("C06", cfg, ops)
             }
             M_REV => {
@@ -135,6 +136,7 @@ impl Prop for C06 {
                         align = if cfg.comp() { 4 * 1024 * 1024 - 1 } else { 128 * 1024 - 1 };
                     }
                 }
+                maybe_many_recipients(&mut rng, &mut cfg, 15);
                 let mut k = Case::new("C06", cfg, ops);
                 k.params.insert("plan_seed".into(), (rng.u64() >> 1) as i64);
                 if align >= 0 {
@@ -173,7 +175,7 @@ impl Prop for C06 {
                 let sink = SimSink::new(&Sched::Full);
                 let w = s.write(&case.cfg, &case.ops, sink.clone());
                 if w.panic.is_some() || w.from_config_err.is_some() || w.results.iter().any(Result::is_err) {
-                    v.push(Violation::new("workload-write-failed", "write", format!("{:?} {:?}", w.panic, w.results.iter().find(|r| r.is_err()))));
+                    v.push(Violation::new("workload-write-failed", "write", format!("writing the workload failed: panic {:?}, from_config {:?}, first failed call {:?}", w.panic, w.from_config_err, w.results.iter().find(|r| r.is_err()))));
                     return v;
                 }
                 let image = sink.data();
